@@ -105,7 +105,10 @@ class C15Executor(Executor):
             return [(st, NONE)]
         from pyvc.values import VMod
         if len(args) == 3 and isinstance(args[0], VMod):
-            st.ghost["foreign_stores"] = tuple(st.ghost.get("foreign_stores", ())) + (f"{self.loc(node)} setattr({args[0].name}, ...)",)
+            nm = args[1].const() if isinstance(args[1], VStr) else None
+            if nm is not None:       # the same act as `module.nm = value`
+                return [(s2, NONE) for s2 in self.store_attr(st, args[0], nm, args[2], node)]
+            st.ghost["foreign_stores"] = tuple(st.ghost.get("foreign_stores", ())) + (f"{self.loc(node)} setattr({args[0].name}, <computed name>, ...)",)
             return [(st, NONE)]
         return self.havoc_call(st, "setattr", args, node)
 
@@ -153,6 +156,11 @@ class C15Executor(Executor):
     # mutator call on one is recorded like a mutation of a published object; handing one out is not "a fresh object"
     def shared_mutated(self, st, node, what="module-level object"):
         st.ghost["published_mutated"] = tuple(st.ghost.get("published_mutated", ())) + (f"{self.loc(node)} ({what})",)
+
+    def truth(self, st, v):
+        if isinstance(v, VExt) and v.sort == "C15Shared":
+            return VBool(z3.Bool(fresh_name("shared_nonempty")))     # whether a shared container is empty is not known
+        return super().truth(st, v)
 
     def store_slice(self, st, base, sl, v, node):
         if isinstance(base, VExt) and base.sort == "C15Shared":
@@ -304,10 +312,8 @@ def contracts(reg):
         return outs
 
     reg.ext_models["C15.make_wrapper"] = lambda ex, st, args, kwargs, node: [(st, VExt("Callable"))]
-    reg.fn[f"{PDF}::{prov[1]}"] = FnContract(
-        target=f"{PDF}::{prov[1]}", assumed=True, inline=False,
-        note="ASSUMED shape, cross-checked against its AST by obligation H1.shape: returns (literal list of (module, name) pairs, "
-             "wrapper factory that only defines a closure) or raises AttributeError")
+    # (until round 6 this model was an ASSUMED shape; since round 7 `provider_contract` below verifies the provider's real body and
+    #  one of its clauses is that every returned target list is one of `shapes`, so the model is the call-site view of a verified contract)
     # route calls of the real function to the model above
     def call_patcher(ex, st, args, kwargs, node):
         return m_patcher(ex, st, args, kwargs, node)
@@ -317,6 +323,11 @@ def contracts(reg):
     pc_ = provider_contract(reg, prov, shapes)
     if pc_ is not None:
         out.append(pc_)
+    else:
+        reg.fn[f"{PDF}::{prov[1]}"] = FnContract(
+            target=f"{PDF}::{prov[1]}", assumed=True, inline=False,
+            note="ASSUMED shape, cross-checked against its AST by obligation H1.shape: returns (literal list of (module, name) pairs, "
+                 "wrapper factory that only defines a closure) or raises AttributeError")
     pp_ = permanent_patch_contract(reg, roles.get("permanent-aes-patch"))
     if pp_ is not None:
         out.append(pp_)
@@ -391,8 +402,16 @@ def cache_contracts(reg):
         ok = all(any(k is l for l in looks) or any(k is c.args[a] for a in c.args) for (k, _v) in stores)
         return z3.BoolVal(bool(ok))
 
-    def not_mutated(c):
+    def not_mutated(c, raising=False):
         m = c.st.ghost.get("published_mutated", ()) if c.st is not None else ()
+        if m and all("module-level object" in x for x in m):
+            # (round 7) the accessor path writes OTHER module-level containers (lazily filled tables, scratch buffers): whether that
+            # is a correct populate-once or shared working memory is H8 / H9b / H14's question -- undecided here, the schedule /
+            # history replayer decides (never a refutation by this over-approximation)
+            if raising:
+                return z3.BoolVal(True)
+            from pyvc.ops import Unsupported
+            raise Unsupported("the accessor path writes module-level containers other than the cache at " + ", ".join(m)[:300])
         if m:
             c.note = "mutates an object the cache holds / has handed out at " + ", ".join(m)
         return z3.BoolVal(not m)
@@ -403,8 +422,8 @@ def cache_contracts(reg):
         target=f"{acc[0]}::{acc[1]}", params=[(p_, p_unk()) for p_ in acc_params],
         ensures=[("objects-held-by-the-cache-are-not-mutated", not_mutated),
                  ("a-miss-stores-under-the-key-it-looked-up", stored_under_looked_up_key)],
-        raises=[Raises("ValueError", when=not_mutated, label="only the key-length check of _expand_key, and nothing published was mutated before")],
-        note="cache object abstract; _expand_key assumed to return a fresh list or raise ValueError (its contract is C20's)",
+        raises=[Raises("ValueError", when=lambda c: not_mutated(c, True), label="only the key-length check of _expand_key, and nothing published was mutated before")],
+        note="cache object abstract; the key expansion is applied by its verified contract (round 7: a list allocated by the call, or ValueError)",
     ))
     return out
 
@@ -486,6 +505,9 @@ def provider_contract(reg, prov, shapes):
         if items is None:
             c.note = why
             return z3.BoolVal(False)
+        if isinstance(fac, VFunc) and fac.how == "repo":
+            c.note = f"targets {items}; factory = module-level function {fac.b}"     # hoisted factory: stateless by construction
+            return z3.BoolVal(True)
         if not (isinstance(fac, VFunc) and fac.how == "closure" and isinstance(fac.a, ast.FunctionDef) and any((fac.a.name, fac.a.lineno) == (n.name, n.lineno) for n in ast.walk(fn) if isinstance(n, ast.FunctionDef) and n is not fn)):
             c.note = f"the wrapper factory {fac!r} is not a function defined by this call"
             return z3.BoolVal(False)
@@ -1036,7 +1058,8 @@ def policy(repo, tier):
         if n_inst == 0:
             ok, unknown_origin = False, True
             why.append("no installation site found")
-        fns.append(dict(mods[perm_key[0]].fn_info(perm_key[1]), obligations=1))
+        # (round 7: the function is listed under contract by its symbolic contract `permanent_patch_contract`; H2 stays as the
+        #  interprocedural dataflow reading of the same claim -- helpers that install on its behalf)
     GH("C15/_pypdf_aes_fallback.py::<permanent-aes-patch>/frame#installs-only-stateless-functions-(idempotent)", ok,
        "; ".join(why[:4]) or f"{perm_key[1]}: every installed value is a module-level function, a closure without captured state or a re-export", AESF,
        definite=not unknown_origin)
@@ -1525,7 +1548,8 @@ TRUSTED = ["the with-body of _patched_build_char_map leaves the patched attribut
            "are tracked one level deep"]
 ASSUMED_MODELS = ["getattr/setattr on pypdf modules (ghost attribute map)", "generator resumption: normal, throw(exc), close()",
                   "pypdf._crypt_providers.crypt_provider is a tuple of strings (its items compare with a str without raising)",
-                  "_ROUND_KEY_CACHE as an abstract mapping whose values are published heap objects; _expand_key returns a fresh list or raises ValueError (C20 proves it)"]
+                  "_ROUND_KEY_CACHE as an abstract mapping whose values are published heap objects (the key expansion it memoises is "
+                  "verified since round 7: <key-expansion> obligations)"]
 ASSUMPTIONS = ["SCHEDULES: only the sufficient conditions H9a / H9b / H10 / H12 on the module state the library owns are decided; interleavings inside third-party "
                "code and schedules with more context switches than the replayer explores (1 for caches, 2 for the patch section) are NOT",
                "memo soundness / ownership / write discipline are dataflow analyses on the real AST (back end 'dataflow'); an unrecognised shape is `unknown`, never proved",
